@@ -1,4 +1,5 @@
 import BlobfinderModel.Properties.C04
+import BlobfinderModel.Gen.Eval
 /-!
 # C04 — wiring: text of the current source pinned for code that is glue between library calls
 (kept apart from the property theorems so that a module importing `Properties.C04` does not depend on these pins)
@@ -18,5 +19,25 @@ theorem upsample_only_refined :
     ∧ (∀ u : ℤ, Gen.fast_upsample_on u = true ↔ 1 < u) ∧ Gen.fast_upsample_default = 20
     ∧ (∀ u : ℤ, Gen.full_upsample_on u = true ↔ 1 < u) ∧ Gen.full_upsample_default = 20 := by
   refine ⟨rfl, ?_, rfl, ?_, rfl⟩ <;> intro u <;> simp [Gen.fast_upsample_on, Gen.full_upsample_on]
+
+/-- further text of the current source that the model takes for granted (glue between library calls: argument lists, output
+allocation, loop bodies) -- a change there is a change of the tie -/
+theorem text_pins_more :
+    Gen.unravel_body = "sizes = np.zeros(len(shape), dtype=np.int64) ; result = np.zeros(len(shape), dtype=np.int64) ; sizes[-1] = 1 ; for i in range(len(shape) - 2, -1, -1): sizes[i] = sizes[i + 1] * shape[i + 1] ; remainder = index ; for i in range(len(shape)): result[i] = remainder // sizes[i] remainder %= sizes[i] ; return to_fixed_tuple(result, len(shape))" ∧
+    Gen.us_tail = "maxima = np.unravel_index(np.abs(cross_correlation_us).argmax(), cross_correlation_us.shape) ; maxima = np.stack(maxima).astype(np.float32, copy=False) ; maxima -= dftshift ; shift += maxima / upsample_factor ; shift += corrmap_center ; return shift.astype(np.float32)" ∧
+    Gen.us_dft_body = "im2pi = -1j * 2 * np.pi ; upsampled = corrspecs ; for ax_freq, ax_offset in zip(frequencies[::-1], axis_offsets[::-1]): kernel = np.linspace(-ax_offset, -ax_offset + upsampled_region_size - 1, num=int(upsampled_region_size)) kernel = np.exp(kernel[:, None] * ax_freq * im2pi, dtype=np.complex64) upsampled = np.tensordot(kernel, upsampled, axes=(1, -1)) ; return upsampled" ∧
+    Gen.fast_refineds_alloc = "np.zeros((len(frames), len(peaks), 2), dtype=np.float32)" ∧
+    Gen.fast_heights_alloc = "np.zeros((len(frames), len(peaks)), dtype=np.float32)" ∧
+    Gen.fast_elevations_alloc = "np.zeros((len(frames), len(peaks)), dtype=np.float32)" ∧
+    Gen.full_refineds_alloc = "np.zeros((len(frames), len(peaks), 2), dtype=np.float32)" ∧
+    Gen.full_heights_alloc = "np.zeros((len(frames), len(peaks)), dtype=np.float32)" ∧
+    Gen.full_elevations_alloc = "np.zeros((len(frames), len(peaks)), dtype=np.float32)" ∧
+    Gen.full_buf_count = "correlation.get_buf_count(crop_size, len(peaks), frame_buf.dtype)" := ⟨rfl, rfl, rfl, rfl, rfl, rfl, rfl, rfl, rfl, rfl⟩
+
+/-- the batch helpers as written (peak list handling, buffer allocation, loop over the frames): glue the model takes for granted
+-- a change there is a change of the tie -/
+theorem text_pins_wrappers :
+    Gen.fast_wrapper_body = "crop_size = pattern.get_crop_size() ; template = pattern.get_template(sig_shape=(2 * crop_size, 2 * crop_size)) ; centers = np.zeros((len(frames), len(peaks), 2), dtype=np.int16) ; refineds = np.zeros((len(frames), len(peaks), 2), dtype=np.float32) ; heights = np.zeros((len(frames), len(peaks)), dtype=np.float32) ; elevations = np.zeros((len(frames), len(peaks)), dtype=np.float32) ; crop_bufs = correlation.allocate_crop_bufs(crop_size, len(peaks), np.result_type(frames.dtype, np.float32)) ; for i, f in enumerate(frames): correlation.process_frame_fast(template=template, crop_size=crop_size, frame=f, peaks=peaks.astype(np.int32), out_centers=centers[i], out_refineds=refineds[i], out_heights=heights[i], out_elevations=elevations[i], crop_bufs=crop_bufs, upsample=upsample) ; return (centers, refineds, heights, elevations)" ∧
+    Gen.full_wrapper_body = "crop_size = pattern.get_crop_size() ; template = pattern.get_template(sig_shape=frames[0].shape) ; centers = np.zeros((len(frames), len(peaks), 2), dtype=np.int16) ; refineds = np.zeros((len(frames), len(peaks), 2), dtype=np.float32) ; heights = np.zeros((len(frames), len(peaks)), dtype=np.float32) ; elevations = np.zeros((len(frames), len(peaks)), dtype=np.float32) ; frame_buf = correlation.zeros(frames[0].shape, dtype=np.float32) ; buf_count = correlation.get_buf_count(crop_size, len(peaks), frame_buf.dtype) ; for i, f in enumerate(frames): correlation.process_frame_full(template=template, crop_size=crop_size, frame=f, peaks=peaks.astype(np.int32), out_centers=centers[i], out_refineds=refineds[i], out_heights=heights[i], out_elevations=elevations[i], frame_buf=frame_buf, buf_count=buf_count, upsample=upsample) ; return (centers, refineds, heights, elevations)" := ⟨rfl, rfl⟩
 
 end C04
